@@ -14,7 +14,7 @@ use crate::util::Scratch;
 use ironplc_plc2plc::write_to_string;
 use rayon::prelude::*;
 use serde_json::{json, Value};
-use std::collections::BTreeSet;
+use std::collections::{BTreeMap, BTreeSet};
 use std::time::Duration;
 
 pub struct Judged {
@@ -112,6 +112,33 @@ pub fn run(ctx: &mut Ctx) {
     ctx.bounds.insert("deviation_bound".into(), json!(bound));
     ctx.assumptions.push("programs the parser rejects in the first place are counted and left to C01".into());
     let judged: Vec<Judged> = cases.par_iter().map(|c| judge_text(&c.text())).collect();
+    // cardinality family (every list production with up to 1000 marked elements): the same round trip
+    let cards = crate::gram::card::cases();
+    let card_judged: Vec<Judged> = cards.par_iter().map(|c| judge_text(&c.text)).collect();
+    // A production that fails at every size from 2 on fails for a structural reason that the main families
+    // decide (and record); what this family adds is size dependence: a failure at a size above one that passes.
+    let mut smallest_pass: BTreeMap<&str, usize> = BTreeMap::new();
+    for (c, j) in cards.iter().zip(card_judged.iter()) {
+        if !j.skipped && j.sigs.is_empty() && c.n >= 2 {
+            let e = smallest_pass.entry(c.production).or_insert(c.n);
+            *e = (*e).min(c.n);
+        }
+    }
+    for (c, j) in cards.iter().zip(card_judged.iter()) {
+        ctx.evaluations += 1;
+        ctx.transitions += 3;
+        ctx.distinct(&c.text);
+        if j.skipped {
+            ctx.outcome("cardinality: not accepted by the parser (C01)");
+        } else if j.sigs.is_empty() {
+            ctx.outcome("cardinality: round trip holds");
+        } else if smallest_pass.get(c.production).map(|m| *m < c.n).unwrap_or(false) {
+            ctx.outcome("cardinality: round trip depends on the number of elements");
+            ctx.fail(&format!("cardinality/{}#round-trip-depends-on-the-number-of-elements", c.production), &format!("{} with {} elements (holds with {}) :: {}", c.production, c.n, smallest_pass[c.production], j.detail), json!({"text": c.text}));
+        } else {
+            ctx.outcome("cardinality: fails at every size (structural; decided by the main families)");
+        }
+    }
     let mut order: Vec<usize> = (0..cases.len()).collect();
     order.sort_by_key(|i| (cases[*i].labels.len(), *i));
     let mut attr = Attribution::relaxed();
